@@ -61,6 +61,8 @@ pub mod chronobox;
 mod matching;
 /// Vertex reconstruction.
 pub mod reconstruction;
+#[cfg(alpha_g_verif)]
+pub mod verif_hooks;
 
 /// Townsend avalanche generated in the multiplying region near an anode wire
 /// surface.
@@ -323,6 +325,8 @@ impl MainEvent {
             }
         }
 
+        #[cfg(alpha_g_verif)]
+        let pwb_chunks_map = crate::verif_hooks::GroupOrder::new(pwb_chunks_map);
         for chunks in pwb_chunks_map.into_values() {
             let packet = PwbPacket::try_from(chunks)?;
             let board_id = packet.board_id();
